@@ -233,6 +233,36 @@ def correspond(ctx):
                 st["first_disagreements"].append({"case": c[:1500], "implementation": "T", "model": o})
     dist["RFC 7515 / 7520 section 4 vectors verified by jose"] = len(vcases)
 
+    # ---- C2: several signatures made with the SAME algorithm (key roll-over): each key alone, both in either order and
+    #          in all-mode verify the product; an unrelated key does not
+    ks0 = G.standard_keys(bdir)
+    same = [("HS256", [G.oct_key(rnd, 32), G.oct_key(rnd, 32), G.oct_key(rnd, 32)])]
+    if ks0.get("P-256"):
+        second = G.strip_meta(G.gen_keys(bdir, [{"kty": "EC", "crv": "P-256", "key_ops": ["sign", "verify"]}])[0])
+        same.append(("ES256", [ks0["P-256"], second]))
+    sreq = ["jwssig\t%s\t%s\t%s" % (G.dumps({"payload": G.b64(b"same alg")}), G.dumps({"protected": {"alg": a}}), G.dumps(kl)) for a, kl in same]
+    vreq, vwant = [], []
+    for (a, kl), o in zip(same, G.harness(bdir, sreq)):
+        if o == "ERR" or o.startswith("CRASH"):
+            rep.violation("multi-same-alg-sign-failed:" + a, "jose_jws_sig with several %s keys failed: %s" % (a, o[:100]), {"alg": a})
+            continue
+        pubs = [k if k["kty"] == "oct" else G.pub_of(k) for k in kl]
+        for k in pubs:
+            vreq.append("jwsver\t%s\t-\t%s\t0" % (o, G.dumps(k)))
+            vwant.append("T")
+        for ksx in (pubs, list(reversed(pubs)), {"keys": pubs}):
+            for all_ in ("0", "1"):
+                vreq.append("jwsver\t%s\t-\t%s\t%s" % (o, G.dumps(ksx), all_))
+                vwant.append("T")
+        vreq.append("jwsver\t%s\t-\t%s\t0" % (o, G.dumps(G.oct_key(rnd, 32) if a == "HS256" else G.pub_of(ks0["P-384"]))))
+        vwant.append("F")
+    for c, o, w in zip(vreq, G.harness(bdir, vreq), vwant):
+        if o != w:
+            rep.violation("multi-same-alg-roundtrip:" + ("rejects" if w == "T" else "accepts"),
+                          "a JWS with several signatures of one algorithm: verification gives %s where %s is due (every signer's key must verify, in any-mode too)" % (o, w), {"case": c[:3000]})
+    dist["several signatures of one algorithm: verifications"] = len(vreq)
+    st["evaluations"] += len(vreq)
+
     # ---- D0: many ECDSA products: r and s always at the curve's full width (a leading zero octet occurs in about one
     #          signature out of 128) and valid under an independent python verifier
     import pyec
